@@ -82,7 +82,7 @@ def _run_suite(prop, suite, stats):
             hits.append((c, None, "the implementation crashed (signal %d: memory fault / abort) while running this case" % (i[2] - 128)))
             continue
         if suite.compare and c.coq is not None:
-            d = core.first_divergence(i, m)
+            d = core.first_divergence(c.norm(i) if getattr(c, "norm", None) else i, m)
             if d is not None:
                 div.append((c, "record #%d: implementation %s / model %s" % d))
             else:
